@@ -13,6 +13,7 @@
   see the level-3 block in the `example` below.
 -/
 import Grenad.Proofs.WriterInv
+import Grenad.Generated.Constants
 
 namespace Grenad.Props.C15
 
@@ -209,5 +210,15 @@ example : ∃ file log, W.run Codec.none cfg (kvs 40) = .ok (file, log) ∧ 12 <
 
 /-- Hypothesis of `C15_clamp_behaviour`. -/
 example : cfg.blockSize ≤ cfg.minBlock := by decide
+
+end Grenad.Props.C15
+
+namespace Grenad.Props.C15
+
+/-- Translator tie: the minimum (and default) block size in /repo's current sources are the model's. -/
+theorem C15_constants_from_source :
+    Grenad.Generated.minBlockSize = 1024 ∧
+    Grenad.Generated.minBlockSize = ({ blockSize := 0 } : Grenad.WCfg).minBlock ∧
+    Grenad.Generated.defaultBlockSize = 8192 := by decide
 
 end Grenad.Props.C15
